@@ -481,7 +481,8 @@ impl Server {
                     );
                 });
 
-                let new_key = Key::from_rel_link_url(&params.new_name, relative_to);
+                // the new name is a library key, as in the taken-name check and the patch above
+                let new_key: Key = params.new_name.clone().into();
 
                 let document_changes = affected_keys
                     .into_iter()
